@@ -26,6 +26,8 @@ type c05Prog struct {
 	facts    []string // "e(1,2)." lines (may carry temporal annotations)
 	temporal bool
 	preds    []string // user predicate names (for renaming)
+	// allFactOrders: every permutation of the facts even when there are more than 4
+	allFactOrders bool
 }
 
 var c05VarRe = regexp.MustCompile(`\b[A-Z][A-Za-z0-9]*\b`)
@@ -167,7 +169,11 @@ func (p c05Prog) variants(thorough bool) []c05Variant {
 	for _, ro := range permsOrSome(len(p.rules)) {
 		base(fmt.Sprint("clause order ", ro), p.render(ro, idF, 0, nil, false, true), nil)
 	}
-	for _, fo := range permsOrSome(len(p.facts)) {
+	factOrders := permsOrSome(len(p.facts))
+	if p.allFactOrders && len(p.facts) <= 5 {
+		factOrders = permutations(len(p.facts))
+	}
+	for _, fo := range factOrders {
 		base(fmt.Sprint("fact order ", fo), p.render(idR, fo, 0, nil, false, true), nil)
 	}
 	base("facts after rules", p.render(idR, idF, 0, nil, false, false), nil)
@@ -363,6 +369,33 @@ func c05Corpus(thorough bool) []c05Prog {
 		out = append(out, c05Prog{name: fmt.Sprint("T", rs), decls: []string{"Decl a(X) temporal bound [/number]."}, rules: rules, facts: tFacts, temporal: true,
 			preds: []string{"a", "b", "c", "d", "f", "g", "h", "k"}})
 	}
+	// several intervals of one atom: the shape of the store's interval tree depends on the order of the base facts,
+	// the answers of lookups by instant or range (concrete body intervals, diamond operators) must not
+	t2Facts := []string{"a(1)@[2023-08-01, 2023-08-20].", "a(1)@[2023-09-01, 2023-09-20].", "a(1)@[2023-10-01, 2023-10-20].", "a(1)@[2023-11-01, 2023-11-12]."}
+	t2Rules := []string{
+		"busy(X) :- a(X)@[2023-10-05, 2023-10-06].",
+		"recent(X) :- <-[0s, 10d] a(X).",
+		"older(X) :- <-[30d, 50d] a(X).",
+		"cont(X) :- [-[5d, 6d] a(X).",
+		"early(X) :- a(X)@[2023-08-02, 2023-08-03].",
+		"span(X)@[S,E] :- <-[60d, 80d] a(X)@[S,E].",
+	}
+	for _, rs := range [][]int{{0}, {1}, {2}, {3}, {4}, {5}, {0, 1, 2, 4}} {
+		var rules []string
+		for _, i := range rs {
+			rules = append(rules, t2Rules[i])
+		}
+		// 3, 4 and 5 intervals of the same atom, every order of the facts (a rotation caused by the last
+		// insertion is not repaired by a later one)
+		for k, facts := range [][]string{t2Facts[1:], t2Facts, append(append([]string{}, t2Facts...), "a(1)@[2023-07-01, 2023-07-20].")} {
+			out = append(out, c05Prog{name: fmt.Sprintf("T2.%d-%v", k+3, rs), decls: []string{"Decl a(X) temporal bound [/number]."}, rules: rules, facts: facts, temporal: true,
+				preds: []string{"a", "busy", "recent", "older", "cont", "early", "span"}, allFactOrders: true})
+		}
+		// nested and overlapping intervals and a second atom (rotations, reversal, transpositions of the fact order)
+		out = append(out, c05Prog{name: fmt.Sprint("T3-", rs), decls: []string{"Decl a(X) temporal bound [/number]."}, rules: rules,
+			facts: append(append([]string{}, t2Facts...), "a(1)@[2023-07-01, 2023-11-14].", "a(2)@[2023-10-05, 2023-10-05]."), temporal: true,
+			preds: []string{"a", "busy", "recent", "older", "cont", "early", "span"}})
+	}
 	return out
 }
 
@@ -458,6 +491,6 @@ func c05(r *rt.Run) {
 	})
 	_ = oracle.Key
 	c05MapOrder(r)
-	r.Finish("base programs: 4-rule recursive programs of pool G, negation pool N, 3-4-clause programs of pool M (predicates with inline facts and rules), pairs of aggregating rules (pool A), temporal chains (pool T); for each: every clause order (<=4 clauses: all permutations), every fact order (rotations, reversal, transpositions), 2 consistent variable renamings, 2 predicate renamings, package wrapping, 8 store kinds, WithDeterministicOrder, and repeated runs; map iteration order: 4 global modes + every single deviation for a sub-corpus; " +
+	r.Finish("base programs: 4-rule recursive programs of pool G, negation pool N, 3-4-clause programs of pool M (predicates with inline facts and rules), pairs of aggregating rules (pool A), temporal chains (pool T), lookups by instant/range over 4-6 intervals of one atom (T2, T3); for each: every clause order (<=4 clauses: all permutations), every fact order (rotations, reversal, transpositions), 2 consistent variable renamings, 2 predicate renamings, package wrapping, 8 store kinds, WithDeterministicOrder, and repeated runs; map iteration order: 4 global modes + every single deviation for a sub-corpus; " +
 		"all variants must produce the same canonical fact set; non-trivial = base programs that derive facts")
 }
